@@ -19,7 +19,8 @@ ClassNamePool  == {"A", "B", "Pose3", "Test", "MyFactor", "T1", "Value", "Klass"
 ParamPool      == {"T", "U", "POSE", "Va"}
 CustomPool     == {"A", "B", "Pose3", "Test", "Vector", "Matrix", "string", "Point3", "Type", "Value", "T1", "Key"}
 TemplNamePool  == {<<"std", "vector">>, <<"FastSet">>, <<"gtsam", "Foo">>, <<"std", "map">>, <<"Tpl">>}
-NsPathPool     == {<<>>, <<>>, <<"gtsam">>, <<"ns1", "inner">>, <<"std">>, <<"a", "b", "c">>}
+NsPathPool     == {<<>>, <<"gtsam">>, <<"ns1", "inner">>, <<"std">>, <<"a", "b", "c">>, <<"Tools">>, <<"gtsam", "Uv">>,
+                   <<"POSEs">>}   \* some namespaces begin with a parameter's spelling
 ScopedPool     == {"Value", "Type", "shared_ptr", "Sub"}
 MethodNamePool == {"f", "get", "print", "insert", "setValue", "test", "type", "lambda", "def", "at", "size",
                    "templatedMethod", "svg", "update"}
@@ -31,7 +32,8 @@ EnumNamePool   == {"Kind", "Color", "Verbosity", "Status"}
 EnumeratorPool == {"Red", "Green", "Blue", "SILENT", "VALID", "Dog", "Cat", "None_"}
 HeaderPool     == {"gtsam/geometry/Point2.h", "vector", "path/to/ns1.h", "a-b c.h"}
 DefaultPool    == {"0", "-9.81", "1e-5", "\"hello, world\"", "'a'", "gtsam::Pose3()", "Foo(1, 2)", "{1, 2}",
-                   "std::vector<int>()", "a + b", "ns::K::Red", "f(g(1), \"x)\")", "nullptr"}
+                   "std::vector<int>()", "a + b", "ns::K::Red", "f(g(1), \"x)\")", "nullptr",
+                   "\"http://host/a\"", "\"/* no comment */\"", "'/'", "\"a;b\""}
 BasicPool      == {"void", "bool", "unsigned char", "char", "int", "size_t", "double", "float"}
 ValueBasicPool == BasicPool \ {"void"}
 BinOps         == OperatorSyms \ {"()", "[]"}
